@@ -684,16 +684,31 @@ def build_unit(unit, outdir, ghost_override=None, variant=None):
                     if first.startswith("after:"):
                         # structural start: the line following the one with that text (e.g. a loop header)
                         i0 = next(k for k, l in enumerate(wl) if l.strip() == first[6:].strip()) + 1
+                    elif re.match(r"nth=(\d+):", first):
+                        nn = int(re.match(r"nth=(\d+):", first).group(1))
+                        ftxt = first.split(":", 1)[1].strip()
+                        i0 = [k for k, l in enumerate(wl) if l.strip() == ftxt][nn - 1]
                     else:
                         i0 = next(k for k, l in enumerate(wl) if l.strip() == first)
-                    i1 = next(k for k, l in enumerate(wl) if k >= i0 and l.strip() == last) + more
-                except StopIteration:
+                    if last == "block":
+                        # structural end: the line that closes the brace block opened on the first line
+                        off = sum(len(l) + 1 for l in wl[:i0])
+                        mskw = rustlex.mask(whole)
+                        ob = mskw.rfind("{", off, off + len(wl[i0]) + 1)
+                        if ob < 0:
+                            raise StopIteration
+                        i1 = whole.count("\n", 0, rustlex.match_brace(mskw, ob))
+                    else:
+                        i1 = next(k for k, l in enumerate(wl) if k >= i0 and l.strip() == last) + more
+                except (StopIteration, IndexError):
                     raise Undecided("lost slice anchor in %s (%s): `%s` .. `%s`" % (srcfile, label, first, last))
                 body = dedent("\n".join(wl[i0:i1 + 1]))
                 ind_body = "\n".join("    " + l if l.strip() else l for l in body.split("\n"))
                 if "@" in tail:
                     # the sliced lines are an expression: `Ok(@)` wraps them as a block expression
                     pre, post = tail.split("@", 1)
+                    if post.strip().startswith(";"):
+                        post = ";\n    " + post.strip()[1:].strip()   # `let r0 = @; r0`: the tail on its own line (anchorable)
                     raw = sig + " {\n    " + pre + "{\n" + ind_body + "\n    }" + post + "\n}"
                 else:
                     raw = sig + " {\n" + ind_body + "\n    " + tail + "\n}"
